@@ -288,6 +288,10 @@ class Engine:
         from . import proxies as P
         return _fb(P.div_round_spec(mode, P.SymInt._l(m), P.SymInt._l(x), P.SymInt._l(y)))
 
+    def value_of(self, k):
+        """concrete value of a finite-range symbolic integer on this path (splits)"""
+        return self.concretise(k)
+
     def n_roundings(self):
         return len(self.round_log)
 
